@@ -1248,7 +1248,12 @@ func (u *Unit) checkCallAsserts(st *State, pk, key string, k int, pos token.Pos)
 		match := false
 		if ca.On != "" {
 			// addressed by the text of the source line (robust against renumbering)
-			if calleeMatches(ca.Callee, pk, key) && strings.Contains(u.rawLine(pos), ca.On) {
+			lineOK := strings.Contains(u.rawLine(pos), ca.On)
+			if strings.HasPrefix(ca.On, "^") {
+				// "^text": the whole (trimmed) line is text
+				lineOK = strings.TrimSpace(u.rawLine(pos)) == ca.On[1:]
+			}
+			if calleeMatches(ca.Callee, pk, key) && lineOK {
 				// K counts distinct call sites on matching lines, in order of first encounter
 				// (a site is visited more than once: loop discovery, then the real pass)
 				rank := 0
